@@ -36,6 +36,11 @@ type World struct {
 	RepoPaths map[string]bool // package paths that belong to the repository (or extracted code)
 	EmittedPaths map[string]bool // package paths of extracted emitted code
 	extTypes map[string]types.Type
+	Emitted *packages.Package
+	EmittedClient *packages.Package
+	EmittedDir string
+	emittedLoaded bool
+	emittedErr error
 }
 
 const modPath = "github.com/SebastienMelki/sebuf"
